@@ -10,6 +10,8 @@ namespace Serial
 /-- a model dict stands for a Python dict: keys are unique -/
 def DictWF (d : Dict) : Prop := (AL.keys d).Nodup
 
+instance (d : Dict) : Decidable (DictWF d) := by unfold DictWF; infer_instance
+
 /-- same content as dictionaries: every key answers the same (insertion order is not content) -/
 def DictEq (a b : Dict) : Prop := ∀ k, AL.get? a k = AL.get? b k
 
@@ -28,6 +30,72 @@ def imageAttrs : List String :=
 
 /-- an Image object always holds its eight entries (`__init__` and `clear` fill them in) -/
 def ImageWF (d : Dict) : Prop := DictWF d ∧ ∀ k ∈ imageAttrs, AL.contains d k = true
+
+instance (d : Dict) : Decidable (ImageWF d) := by unfold ImageWF; infer_instance
+
+/-! ### the hand-written side of the table obligations -/
+
+/-- The observable fields of the table-driven kinds, from the property's enumeration (font: layers with
+order and default, glyphs, info, kerning, groups, features, lib, temporary lib, guidelines, images, data;
+the two private font keys carry the format version and the kerning-group rename maps).  Dict-like kinds,
+Info and the file sets have no fixed keys: see `expectedDynamic`. -/
+def observable : List (String × List String) := [
+  ("font", ["layers", "info", "kerning", "groups", "features", "lib", "tempLib", "guidelines", "images", "data",
+            "_ufoFormatVersion", "_kerningGroupConversionRenameMaps"]),
+  ("layerSet", ["layers"]),
+  ("layer", ["lib", "tempLib", "color", "glyphs"]),
+  ("glyph", ["name", "unicodes", "width", "height", "note", "components", "anchors", "guidelines", "image", "lib",
+             "tempLib"]),
+  ("contour", ["pen"]),
+  ("component", ["baseGlyph", "transformation", "identifier"]),
+  ("features", ["text"])]
+
+/-- the two mutually exclusive keys that carry a glyph's contours -/
+def glyphContourKeys : List String := ["_shallowLoadedContours", "_contours"]
+
+/-- the keys the model's getField / setField functions implement, per kind -/
+def modelKeys : List (String × List String) := [
+  ("font", ["_ufoFormatVersion", "_kerningGroupConversionRenameMaps", "data", "features", "groups", "images", "info",
+            "kerning", "layers", "lib", "tempLib", "guidelines"]),
+  ("layerSet", ["layers"]),
+  ("layer", ["lib", "tempLib", "color", "glyphs"]),
+  ("glyph", ["name", "unicodes", "width", "height", "note", "components", "anchors", "guidelines", "image", "lib",
+             "tempLib", "_shallowLoadedContours", "_contours"]),
+  ("contour", ["pen"]),
+  ("component", ["baseGlyph", "transformation", "identifier"]),
+  ("features", ["text"])]
+
+/-- kinds without a fixed key table: (kind, class providing both methods, key source of the getter, bulk form
+of the setter) -/
+def expectedDynamic : List (String × String × String × String) := [
+  ("anchor", "BaseDictObject", "keys", "update"), ("guideline", "BaseDictObject", "keys", "update"),
+  ("image", "BaseDictObject", "keys", "update"), ("lib", "BaseDictObject", "keys", "update"),
+  ("kerning", "BaseDictObject", "keys", "update"), ("groups", "BaseDictObject", "keys", "update"),
+  ("info", "Info", "properties", "properties"),
+  ("imageSet", "ImageSet", "fileNames", "items"), ("dataSet", "DataSet", "fileNames", "items")]
+
+/-- every kind of the property's enumeration -/
+def allKinds : List String :=
+  ["font", "layerSet", "layer", "glyph", "contour", "component", "anchor", "guideline", "image", "lib", "kerning",
+   "groups", "info", "features", "imageSet", "dataSet"]
+
+def setKeyNames (r : Gen.SerialTables.Row) : List String := r.setKeys.map Prod.fst
+
+/-- `fields` all have a getter entry and a setter entry in the row of `kind` -/
+def covered (kind : String) (fields : List String) : Bool :=
+  Gen.SerialTables.rows.any fun r =>
+    r.kind == kind && fields.all fun f => r.getKeys.contains f && (setKeyNames r).contains f
+
+/-- every key of the row of `kind` is one the model implements -/
+def known (kind : String) (keys : List String) : Bool :=
+  Gen.SerialTables.rows.all fun r =>
+    r.kind != kind ||
+      ((r.getKeys ++ r.getAlt ++ setKeyNames r).all fun k => keys.contains k) && r.getDyn == "" && r.setDyn == ""
+
+def dynamicAsExpected (e : String × String × String × String) : Bool :=
+  Gen.SerialTables.rows.any fun r =>
+    r.kind == e.1 && r.getProvider == e.2.1 && r.setProvider == e.2.1 && r.getDyn == e.2.2.1 && r.setDyn == e.2.2.2
+      && r.getKeys.isEmpty && r.getAlt.isEmpty && r.setKeys.isEmpty
 
 /-! ### new objects -/
 
@@ -85,7 +153,7 @@ def Glyph.rebuiltFrom (g t : Glyph) : Glyph :=
 structure Glyph.DictsWF (g : Glyph) : Prop where
   lib : DictWF g.lib.items
   tempLib : DictWF g.tempLib.items
-  image : DictWF g.imageObj.items
+  image : ImageWF g.imageObj.items
   anchors : ∀ a ∈ g.anchors, DictWF a.items
   guidelines : ∀ a ∈ g.guidelines, DictWF a.items
 
@@ -251,6 +319,56 @@ structure Font.ObsEq (r f : Font) : Prop where
   info : ∀ k ∈ AL.keys Gen.SerialTables.infoProperties, dictGet r.info.items k = dictGet f.info.items k
   layers : r.layers.ObsEq f.layers
   guidelines : ListRel (fun a b => AttrEq guidelineAttrs a.items b.items) r.guidelines f.guidelines
+
+/-- the identifiers in use in every glyph of the layer are pairwise distinct (C10's invariant) -/
+def Layer.IdsWF (ly : Layer) : Prop := ∀ ng ∈ ly.glyphs, ng.2.usedIds.Nodup
+
+instance (ly : Layer) : Decidable ly.IdsWF := by unfold Layer.IdsWF; infer_instance
+
+def LayerSet.IdsWF (ls : LayerSet) : Prop := ∀ nl ∈ ls.layers, nl.2.IdsWF
+
+instance (ls : LayerSet) : Decidable ls.IdsWF := by unfold LayerSet.IdsWF; infer_instance
+
+/-- identifiers of the font-level guidelines, those that are not None -/
+def Font.usedIds (f : Font) : List Val := (f.guidelines.map dictIdent).filter (· ≠ pyNone)
+
+/-! ### wiring of whole trees -/
+
+/-- a glyph inside a font: observed by its layer, a dispatcher exists, all children wired in both load states -/
+structure Glyph.Wired (g : Glyph) : Prop where
+  parent : g.parent = true
+  observed : g.observed = true
+  disp : g.disp = true
+  children : g.ChildrenWired
+  loaded : g.fullyLoad.ChildrenWired
+
+structure Layer.Wired (ly : Layer) : Prop where
+  parent : ly.parent = true
+  observed : ly.observed = true
+  lib : ly.lib.parent = true ∧ ly.lib.observed = true
+  tempLib : ly.tempLib.parent = true
+  glyphs : ∀ ng ∈ ly.glyphs, ng.2.Wired
+
+structure LayerSet.Wired (ls : LayerSet) : Prop where
+  parent : ls.parent = true
+  observed : ls.observed = true
+  layers : ∀ nl ∈ ls.layers, nl.2.Wired
+
+def DictObj.Wired (o : DictObj) : Prop := o.parent = true ∧ o.observed = true
+
+/-- every object of the font answers the right parent and is observed by its container (temp libs have a
+parent and, by design, no observer) -/
+structure Font.Wired (f : Font) : Prop where
+  data : f.data.Wired
+  images : f.images.Wired
+  features : f.features.parent = true ∧ f.features.observed = true
+  groups : f.groups.Wired
+  kerning : f.kerning.Wired
+  lib : f.lib.Wired
+  tempLib : f.tempLib.parent = true
+  info : f.info.Wired
+  layers : f.layers.Wired
+  guidelines : ∀ a ∈ f.guidelines, a.Wired
 
 end Serial
 end DefconModel
